@@ -131,10 +131,12 @@ def negotiate(ctx, allowed, shape, auth=False, sentinel=False):
     host = sstr.ctx_str(ctx, 'host', 1)
     port = ctx.int('port', 0, 65535)
     user = sstr.ctx_str(ctx, 'user', 1)
-    default = sym_version(ctx, 'default', nums)
+    default = sym_version(ctx, 'default',
+                          sorted(set(nums) | {47, 578, 754}))
     p = ctx.int('server_protocol', -(1 << 31), (1 << 31) - 1)
+    srv_name = ctx.choice('server_version_name', ['srv', '1.8.9', '1.7-pre'])
     status_obj = {
-        'version': {'version': {'name': 'srv', 'protocol': p},
+        'version': {'version': {'name': srv_name, 'protocol': p},
                     'description': {'text': 'x'}},
         'no_version': {'description': {'text': 'x'}},
         'no_protocol': {'version': {'name': 'srv'}},
@@ -200,7 +202,7 @@ def negotiate(ctx, allowed, shape, auth=False, sentinel=False):
                 e = excs[0]
                 msg = str(e)
                 conds.append(beq(e.server_protocol, p))
-                conds.append(z3.BoolVal(e.server_version == 'srv'))
+                conds.append(z3.BoolVal(e.server_version == srv_name))
                 says_unsupported = 'not supported' in msg
                 says_disallowed = 'supported, but not allowed' in msg
                 conds.append(z3.BoolVal(says_unsupported != says_disallowed))
